@@ -501,7 +501,10 @@ class C02(core.Check):
         return res
 
     # ================================================================= oracle: a plain 2-D array of cells
-    # A grid value: {"g": rows of [kind, attr, cs, chars], "cur": [(x, y, covered)], "pop": [(x, y, w, covered)]}
+    # A grid value: {"g": rows of [kind, attr, cs, chars], "cur": cursor worlds, "pop": [(x, y, w, covered)]}
+    # "cur" lists the cursors the value may carry: None (no cursor) or (x, y, covered).  Where several operands
+    # carry a cursor the property does not say whose survives, so each is a possible world; every later operation
+    # is applied to every world (a trim that removes the cursor's cell turns that world into None).
     # cs == "*" is a wildcard (the charset of the space that replaces a cut double-width character).
     @staticmethod
     def g_leaf(spec):
@@ -509,7 +512,7 @@ class C02(core.Check):
             if spec["cols"] <= 0 or spec["rows"] <= 0:
                 return None
             return {"g": [[[0, 0, spec["cs"], spec["ch"]] for _ in range(spec["cols"])] for _ in range(spec["rows"])],
-                    "cur": [], "pop": []}
+                    "cur": [None], "pop": []}
         rows = []
         for cells in spec["rows"]:
             r = []
@@ -525,8 +528,29 @@ class C02(core.Check):
         if mc <= 0 or not rows or any(len(r) > mc for r in rows):
             return None
         rows = [r + [[0, 0, 0, " "] for _ in range(mc - len(r))] for r in rows]
-        cur = [(spec["cursor"][0], spec["cursor"][1], False)] if spec.get("cursor") is not None else []
+        cur = [(spec["cursor"][0], spec["cursor"][1], False)] if spec.get("cursor") is not None else [None]
         return {"g": rows, "cur": cur, "pop": []}
+
+    @staticmethod
+    def w_merge(ops):
+        """cursor worlds of a combination: any operand's cursor; no cursor only if no operand need have one"""
+        out = []
+        for ws in ops:
+            for w in ws:
+                if w is not None and w not in out:
+                    out.append(w)
+        if all(None in ws for ws in ops):
+            out.append(None)
+        return out
+
+    @staticmethod
+    def w_map(ws, f):
+        out = []
+        for w in ws:
+            w2 = None if w is None else f(w)
+            if w2 not in out:
+                out.append(w2)
+        return out
 
     @staticmethod
     def g_cut(row):
@@ -570,10 +594,10 @@ class C02(core.Check):
             g, cur, pop, y = [], [], [], 0
             for v in vs:
                 g += v["g"]
-                cur += [(x, yy + y, c) for x, yy, c in v["cur"]]
+                cur.append(self.w_map(v["cur"], lambda w, y=y: (w[0], w[1] + y, w[2])))
                 pop += [(x, yy + y, ww, c) for x, yy, ww, c in v["pop"]]
                 y += len(v["g"])
-            return {"g": g, "cur": cur, "pop": pop}
+            return {"g": g, "cur": self.w_merge(cur), "pop": pop}
         if k == "join":
             vs = [(self.g_eval(s, leaves, env), c) for s, c in t[1]]
             if not vs or any(v is None for v, _ in vs):
@@ -587,10 +611,10 @@ class C02(core.Check):
                 w = len(v["g"][0])
                 for y in range(h):
                     g[y] += (v["g"][y] if y < len(v["g"]) else [list(BL) for _ in range(w)]) + [list(BL) for _ in range(c - w)]
-                cur += [(x + x0, y, cc) for x, y, cc in v["cur"]]
+                cur.append(self.w_map(v["cur"], lambda ww_, x0=x0: (ww_[0] + x0, ww_[1], ww_[2])))
                 pop += [(x + x0, y, ww, cc) for x, y, ww, cc in v["pop"]]
                 x0 += c
-            return {"g": g, "cur": cur, "pop": pop}
+            return {"g": g, "cur": self.w_merge(cur), "pop": pop}
         if k == "overlay":
             top_v = self.g_eval(t[1], leaves, env)
             bot = self.g_eval(t[2], leaves, env)
@@ -606,7 +630,8 @@ class C02(core.Check):
                 r = g[top + y]
                 g[top + y] = self.g_cut(r[:left]) + top_v["g"][y] + self.g_cut(r[left + w:])
             inside = lambda x, y: left <= x < left + w and top <= y < top + h
-            cur = [(x, y, c or inside(x, y)) for x, y, c in bot["cur"]] + [(x + left, y + top, c) for x, y, c in top_v["cur"]]
+            cur = self.w_merge([self.w_map(bot["cur"], lambda ww_: (ww_[0], ww_[1], ww_[2] or inside(ww_[0], ww_[1]))),
+                                self.w_map(top_v["cur"], lambda ww_: (ww_[0] + left, ww_[1] + top, ww_[2]))])
             pop = [(x, y, ww, c or inside(x, y)) for x, y, ww, c in bot["pop"]] + [(x + left, y + top, ww, c) for x, y, ww, c in top_v["pop"]]
             return {"g": g, "cur": cur, "pop": pop}
         if k in MUTATORS:
@@ -650,10 +675,27 @@ class C02(core.Check):
                 for a, b in t[2]:
                     m[a] = b
                 g = [[[c[0], m.get(c[1], c[1]), c[2], c[3]] for c in row] for row in g]
-            out = {"g": g, "cur": [(x + dx, y + dy, c) for x, y, c in v["cur"]],
+            nW, nH = len(g[0]), len(g)
+            cur = v["cur"]
+            if k == "padtb":
+                # the trimming part shifts by -trim_top and drops a cursor outside the trimmed canvas, then the
+                # top padding shifts what is left
+                tp, b = t[2], t[3]
+                if tp < 0 or b < 0:
+                    tH = H - max(0, -tp) - max(0, -b)
+                    cur = self.w_map(cur, lambda ww_: (ww_[0], ww_[1] - max(0, -tp), ww_[2]))
+                    cur = self.w_map(cur, lambda ww_: ww_ if (0 <= ww_[0] < W and 0 <= ww_[1] < tH) else None)
+                if tp > 0:
+                    cur = self.w_map(cur, lambda ww_: (ww_[0], ww_[1] + tp, ww_[2]))
+            else:
+                cur = self.w_map(cur, lambda ww_: (ww_[0] + dx, ww_[1] + dy, ww_[2]))
+                if k in ("trim", "trimend") or (k == "padlr" and (t[2] < 0 or t[3] < 0)):
+                    # content removed => its cursor removed
+                    cur = self.w_map(cur, lambda ww_: ww_ if (0 <= ww_[0] < nW and 0 <= ww_[1] < nH) else None)
+            out = {"g": g, "cur": cur,
                    "pop": [(x + dx, y + dy, w, c) for x, y, w, c in v["pop"]]}
             if k == "cursor":
-                out["cur"] = [] if t[2] is None else [(t[2][0], t[2][1], False)]
+                out["cur"] = [None] if t[2] is None else [(t[2][0], t[2][1], False)]
             elif k == "popup":
                 out["pop"] = [(t[3], t[4], t[2], False)]
             elif k == "finalize":
@@ -705,8 +747,18 @@ class C02(core.Check):
                 msgs.append("def#%d: cols() = %s, grid width %d" % (n, o["cols"], W))
             if o["rows"] != [0, H]:
                 msgs.append("def#%d: rows() = %s, grid height %d" % (n, o["rows"], H))
-            for name, cands, got in (("cursor", [(x, y, c) for x, y, c in v["cur"]], o["cursor"]),
-                                     ("pop-up", [(x, y, c) for x, y, w, c in v["pop"]], o["popup"][:2] if o["popup"] else None)):
+            worlds = v["cur"]
+            nonnone = [ww_ for ww_ in worlds if ww_ is not None]
+            got = o["cursor"]
+            if got is not None:
+                if (got[0], got[1]) not in [(x, y) for x, y, _ in nonnone]:
+                    msgs.append("def#%d: cursor at %s does not move with its content (expected one of %s%s)"
+                                % (n, got, [(x, y) for x, y, _ in nonnone], " or none" if None in worlds else ""))
+            elif None not in worlds:
+                vis = [(x, y) for x, y, c in nonnone if not c and 0 <= x < W and 0 <= y < H]
+                if vis:
+                    msgs.append("def#%d: cursor lost (expected one of %s)" % (n, vis))
+            for name, cands, got in (("pop-up", [(x, y, c) for x, y, w, c in v["pop"]], o["popup"][:2] if o["popup"] else None),):
                 if got is not None:
                     if (got[0], got[1]) not in [(x, y) for x, y, _ in cands]:
                         msgs.append("def#%d: %s at %s does not move with its content (expected one of %s)" % (n, name, got, [(x, y) for x, y, _ in cands]))
@@ -1206,7 +1258,9 @@ C02.level_text = (
     "charset), the cols()/rows() and the cursor / pop-up coordinates of the grid value, and satisfies the well-formedness "
     "invariant WF.  This covers CanvasCombine, CanvasJoin with padding, CanvasOverlay at any offset inside the bottom canvas, "
     "CompositeCanvas(c), pad_trim_left_right / pad_trim_top_bottom with any mix of padding and trimming, trim, trim_end, "
-    "fill_attr_apply (and composition of attribute maps), cursor, pop-up and finalize.  Per-operation theorems on shard "
+    "fill_attr_apply (and composition of attribute maps), cursor, pop-up and finalize; after trim / trim_end / a trimming "
+    "pad_trim_left_right / pad_trim_top_bottom the cursor is the moved cursor when it still lies inside the canvas and is gone "
+    "otherwise (_drop_cursor_outside; pop-up coordinates are kept).  Per-operation theorems on shard "
     "lists (append = stacking, shards_trim_rows = take, shards_trim_top = drop, shards_trim_sides = window of every row, "
     "shards_join = row-wise concatenation, attribute map = cell map) each with WF preservation and size; a double-width "
     "character cut by a window becomes a space and a window of a window is the window; content() of a WF canvas has "
